@@ -26,7 +26,7 @@ impl Check for C08 {
         "C08"
     }
     fn rule(&self) -> String {
-        "case = one generated (formatted) library served by the real LSP loop (half of the sessions after an edit of every note, a third starting from an earlier version whose front matter differs); every internal link occurrence (block reference or inline, any note, incl. links of a note to itself) is used as rename site x new names {free, taken, sub/free, free.md}; the returned WorkspaceEdit is applied to a copy by the harness's own model and the copy re-scanned: new note present with the old note's blocks, old name gone, every link that resolved to the old name now resolves to the new one with text preserved or equal to the title, every other link and every unrelated note untouched, taken name refused without edits; distinct = (site kind, linking dir, target dir, name class) combinations".into()
+        "case = one generated (formatted) library served by the real LSP loop (half of the sessions after an edit of every note, a third starting from an earlier version whose front matter differs); every internal link occurrence (block reference or inline, any note, incl. links of a note to itself) is used as rename site x new names {free, taken, sub/free, free.md, a name that leads out of the library}; the returned WorkspaceEdit is applied to a copy by the harness's own model and the copy re-scanned: new note present with the old note's blocks, old name gone, every link that resolved to the old name now resolves to the new one with text preserved or equal to the title, every other link and every unrelated note untouched, taken name and a name outside of the library refused without edits; distinct = (site kind, linking dir, target dir, name class) combinations".into()
     }
     fn assumptions(&self) -> Vec<String> {
         vec![
@@ -98,9 +98,12 @@ impl Check for C08 {
                 if let Some(t) = taken {
                     names.push((mdscan::relativize(&t, &dir), "taken"));
                 }
+                // a name that leads out of the library (too many "../"): refused like a taken one
+                names.push((format!("../../../out{}", sites), "outside"));
                 let (name, class) = names[rng.below(names.len())].clone();
                 let new_key = match mdscan::resolve(&name, &dir) {
                     Some(k) => k,
+                    None if class == "outside" => String::new(),
                     None => continue,
                 };
                 rep.count("events", 1);
@@ -112,7 +115,7 @@ impl Check for C08 {
                 let value = match out {
                     Outcome::Result(v) => v,
                     Outcome::Error(code, msg) => {
-                        if class == "taken" {
+                        if class == "taken" || class == "outside" {
                             continue; // an error response is a refusal
                         }
                         let panics = mon::drain_thread_panics();
@@ -126,6 +129,12 @@ impl Check for C08 {
                     }
                 };
                 let has_ops = value.get("documentChanges").and_then(|d| d.as_array()).map(|a| !a.is_empty()).unwrap_or(false);
+                if class == "outside" {
+                    if has_ops {
+                        rep.violate("rename-out-of-library-not-refused", &class_locus(class, &dir), format!("rename of {} to `{}`, which leads out of the library, returned edits: {}", old, name, value.to_string().chars().take(200).collect::<String>()), replay);
+                    }
+                    continue;
+                }
                 if class == "taken" {
                     if has_ops {
                         rep.violate("rename-onto-existing-not-refused", &class_locus(class, &dir), format!("rename of {} to existing {} returned edits", old, new_key), replay);
